@@ -48,6 +48,8 @@ func (s BStep) Enc() string {
 		e.I(s.A[0]).I(s.A[1])
 	case 5:
 		e.I(s.A[0]).I(s.A[1]).Z(s.Amt)
+	case 6:
+		e.I(s.A[0]).I(s.A[1]).I(s.A[2])
 	}
 	e.Z(s.Fee).B(s.OK).Bridge(s.Pre, s.Cont).Bridge(s.Post, s.Cont)
 	return e.Coq()
@@ -207,9 +209,15 @@ func RunBridgeHistories(c Ctx, rep *report.Report, rng *chain.Rng, o BOpts, next
 				claim := ethbridgetypes.NewEthBridgeClaim(1, ethbridgetypes.NewEthereumAddress("0x30753E4A8aad7F8597332E813735Def5dD395028"), int64(ev+1), symbol,
 					ethbridgetypes.NewEthereumAddress(token), ethbridgetypes.NewEthereumAddress(ethAddrs[0]), recv, e.ValAddr(vi), sdk.NewIntFromBigInt(amount), ctype)
 				pid, cid, _ := e.RegisterClaim(claim)
+				kind := 1
+				if fs == nil && rng.Intn(14) == 0 {
+					// the validator's own address in the all-upper-case bech32 spelling (bech32 accepts it, the signer is the same key)
+					claim.ValidatorAddress = strings.ToUpper(claim.ValidatorAddress)
+					kind = 6
+				}
 				m := ethbridgetypes.NewMsgCreateEthBridgeClaim(claim)
 				msg, signer = &m, e.Vals[vi]
-				bs = BStep{Kind: 1, A: []int64{pid, e.AcctID[signer.Addr.String()], cid},
+				bs = BStep{Kind: kind, A: []int64{pid, e.AcctID[signer.Addr.String()], cid},
 					Desc: map[string]interface{}{"type": "CreateEthBridgeClaim", "validator": vi, "event_nonce": ev + 1, "symbol": symbol, "amount": amount.String(),
 						"receiver": recv.String(), "claim_type": ctype.String()}}
 			case w < o.ClaimW+o.LockW:
